@@ -20,8 +20,10 @@ import (
 // StrategyManager manages state for load balancing strategies across a single Gate instance.
 // This eliminates global state and allows multiple Gate instances in the same process.
 type StrategyManager struct {
-	// Shared random source for all random operations
-	rng *rand.Rand
+	// Shared random source for all random operations.
+	// *rand.Rand is not safe for concurrent use: guarded by rngMu.
+	rngMu sync.Mutex
+	rng   *rand.Rand
 
 	// Round-robin state per route host
 	roundRobinIndexes *sync.Map // map[string]int
@@ -171,7 +173,9 @@ func (sm *StrategyManager) randomNextBackend(log logr.Logger, backends []string)
 	}
 
 	// Simple random selection - let tryBackends handle health checking via actual dials
+	sm.rngMu.Lock()
 	randIndex := sm.rng.Intn(len(backends))
+	sm.rngMu.Unlock()
 	backend := backends[randIndex]
 
 	return backend, log, true
